@@ -5,6 +5,7 @@ from props import grammar as G
 
 COQ_CORR = "Corr.C08"
 GEN_DEPS = ["GenConst.v"]
+EXTRA_TARGETS = ["Examples/C08_inhabited"]
 SHARD = 400
 RULE = ("round trips: attribute mappings (word-like keys, 1..3 non-empty values over an adversarial unicode alphabet "
         "incl. tab/newline/%;=&,/controls/unicode whitespace) x all 48 dialect dictionaries (3 separators x trailing x "
